@@ -62,8 +62,6 @@ class Cid(object):
         self._location = None
         # Examples still to be validated while read() is under way; otherwise None.
         self._examples_to_validate_after_reading = None
-        self._check_name_to_class_map = Cid._create_name_to_class_map(checks.AbstractCheck)
-        self._field_format_name_to_class_map = Cid._create_name_to_class_map(fields.AbstractFieldFormat)
         if cid_path is not None:
             self.read(cid_path, rowio.auto_rows(cid_path))
         else:
@@ -208,6 +206,17 @@ class Cid(object):
                 self._location,
             )
         return result
+
+    @property
+    def _check_name_to_class_map(self):
+        # NOTE: Look for the classes when they are needed, so checks defined after the Cid was created are found too.
+        return Cid._create_name_to_class_map(checks.AbstractCheck)
+
+    @property
+    def _field_format_name_to_class_map(self):
+        # NOTE: Look for the classes when they are needed, so field formats defined after the Cid was created are
+        #  found too.
+        return Cid._create_name_to_class_map(fields.AbstractFieldFormat)
 
     def _create_field_format_class(self, field_type):
         assert field_type
